@@ -8,6 +8,7 @@ distance call returns `dist` when `dist ≤ bound` and infinity otherwise (C03).
 import Dtaiverif.Proofs.SubseqSearch
 import Dtaiverif.Proofs.CostInst
 import Dtaiverif.Proofs.Bounds
+import Dtaiverif.Proofs.Dist
 
 namespace Dtai
 variable {α : Type} [LinearOrderedAddCommMonoidWithTop α]
@@ -151,6 +152,37 @@ theorem C14_end_to_end (k : Nat) (hk : 1 ≤ k) (useLb : Bool) (M : α) (gs : Li
     exact (List.mem_iff_getElem.mpr ⟨p.2 - 0, by omega, by simpa using this.2.2.symm⟩)
   obtain ⟨h1, h2, h3, h4, h5⟩ := hg p.1 hmem
   exact lb_le_dtw p.1.1 h1 h2 p.1.2 h5 h3 h4
+
+/-! ### end to end with C03: the thresholded distance call -/
+
+/-- what `distance(query, series, max_dist=b)` returns in the search loop, with the kernel of C01/C03:
+`max_dist = 0` means "no bound" (`if not max_dist`), any other bound is handed to the early-abandoning
+kernel, whose result is then compared with the bound once more -/
+def callDist (g : Grid α) (b : α) : α :=
+  if b ≤ 0 then distModel g ⊤ none true else distModel g b none true
+
+/-- **The scan never sees a difference between the early-abandoning kernel and the true distance**: the
+test `dist ≤ bound ∧ dist ≠ ∞` made by the search has the same outcome on the kernel's result as on the
+optimum over admissible paths, and when it succeeds the kernel's result *is* that optimum (C03). -/
+theorem C14_threshold_call (g : Grid α) (h : g.NonNeg) (b : α) :
+    ((callDist g b ≤ b ∧ callDist g b ≠ ⊤) ↔ (dtwSpec g ≤ b ∧ dtwSpec g ≠ ⊤)) ∧
+    (dtwSpec g ≤ b → callDist g b = dtwSpec g) := by
+  unfold callDist
+  by_cases hb : b ≤ 0
+  · simp only [hb, if_true]
+    have : distModel g ⊤ none true = dtwSpec g := by
+      rw [distModel_eq_spec g h none true]; rfl
+    rw [this]
+    exact ⟨Iff.rfl, fun _ => rfl⟩
+  · simp only [hb, if_false]
+    by_cases hle : dtwSpec g ≤ b
+    · rw [distModel_eq_of_le g h b true hle]
+      exact ⟨Iff.rfl, fun _ => rfl⟩
+    · rw [distModel_top_of_gt g h b hb hle]
+      refine ⟨?_, fun h' => absurd h' hle⟩
+      constructor
+      · intro ⟨_, hne⟩; exact absurd rfl hne
+      · intro ⟨hle', _⟩; exact absurd hle' hle
 
 /-! ### `k = None`: the full ranking -/
 
